@@ -36,6 +36,18 @@ class ExcelProjectIo(ProjectIoInterface):
         )
         df.columns = [column.lower() for column in df.columns]
         df = df.rename(columns=OPTION_NAMES_DESERIALIZED)
+        for column_name in ("value", "minimum", "maximum", "standard_error"):
+            # Whole numbers are read as python integers, a column holding one which doesn't fit
+            # into 64 bit (e.g. 1e19) is read as objects and its missing values as text.
+            if column_name in df.columns and df[column_name].dtype == object:
+                df[column_name] = [
+                    np.nan
+                    if isinstance(v, str) and v in ("", "None", "none")
+                    else float(v)
+                    if isinstance(v, (int, float))
+                    else v
+                    for v in df[column_name]
+                ]
         safe_dataframe_fillna(df, "minimum", -np.inf)
         safe_dataframe_fillna(df, "maximum", np.inf)
         return Parameters.from_dataframe(df, source=file_name)
